@@ -22,8 +22,9 @@ class HarnessError(Exception):
     """A bug or trouble in the machinery itself (never a VIOLATION)."""
 
 
-class HarnessHang(HarnessError):
-    pass
+class HarnessHang(BaseException):
+    """raised from the SIGALRM handler; a BaseException so that no 'except Exception'
+    of the code under test (or of an engine) can swallow it"""
 
 
 class Violation:
@@ -150,7 +151,7 @@ def _alarm(signum, frame):
     raise HarnessHang("run exceeded %ds" % RUN_TIMEOUT_S)
 
 
-def execute(engine_cls, prop, *, seed=None, cfg=None, ops=None, findings=None, tier="quick", max_steps=None, timeout=True) -> RunResult:
+def execute(engine_cls, prop, *, seed=None, cfg=None, ops=None, findings=None, tier="quick", max_steps=None, timeout=True, timeout_s=None) -> RunResult:
     """Generate-and-run (ops is None) or replay (ops given; no PRNG at all)."""
     res = RunResult()
     res.seed = seed
@@ -165,7 +166,8 @@ def execute(engine_cls, prop, *, seed=None, cfg=None, ops=None, findings=None, t
     old = None
     if timeout:
         old = signal.signal(signal.SIGALRM, _alarm)
-        signal.alarm(RUN_TIMEOUT_S)
+        # fires after RUN_TIMEOUT_S and then every 2 s, in case something swallows the first one
+        signal.setitimer(signal.ITIMER_REAL, timeout_s or RUN_TIMEOUT_S, 2.0)
     try:
         eng = engine_cls(prop, cfg, res.stats)
         limit = max_steps or cfg.get("max_steps", 40)
@@ -224,7 +226,7 @@ def execute(engine_cls, prop, *, seed=None, cfg=None, ops=None, findings=None, t
         res.harness_error = "HARNESS-EXCEPTION: " + traceback.format_exc()
     finally:
         if timeout:
-            signal.alarm(0)
+            signal.setitimer(signal.ITIMER_REAL, 0, 0)
             signal.signal(signal.SIGALRM, old)
         if eng is not None:
             try:
